@@ -163,7 +163,7 @@ func scenarios(tier string) []engine.Scenario {
 				sets := subsetsOfSize(tg.n, size)
 				bound, entries := 1, allEntries
 				switch {
-				case thorough && size <= 2 && tg.n <= 8:
+				case thorough && size <= 3 && tg.n <= 8:
 					bound = 2
 				case thorough && size == 1:
 					bound = 2
